@@ -1226,7 +1226,11 @@ def run_c04(ctx):
                     sub_band = abs(a2) <= 25 or not fw.confirm_region([[nd['poly']]], geom.closed_edges([nd['poly']]), 4, (lambda w: w[0] == 0), None)
                     par = m['nodes'][nd['parent']]['poly'] if isinstance(nd.get('parent'), int) and 0 <= nd['parent'] < len(m['nodes']) else None
                     touch = (not sub_band) and par is not None and vote_inconclusive(nd['poly'], par)
-                    viol.append({'key': 'sub-band-polygon-misparented' if sub_band else (TOUCH_KEY if touch else key), 'kind': 'hole-orientation', 'text': 'node %s reports IsHole()=%s but its exact doubled area is %d' % (nd['poly'][:4], nd['is_hole'], a2),
+                    poke = False
+                    if not sub_band and not touch and par is None and a2 < 0:
+                        # a hole left at the top level: is there a top-level polygon it pokes out of by less than the band?
+                        poke = any(o is not nd and o.get('parent') == -1 and shoelace2([o['poly']]) > 0 and pokes_out(nd['poly'], o['poly']) for o in m['nodes'])
+                    viol.append({'key': 'sub-band-polygon-misparented' if sub_band else (TOUCH_KEY if touch else (POKE_KEY if poke else key)), 'kind': 'hole-orientation', 'text': 'node %s reports IsHole()=%s but its exact doubled area is %d' % (nd['poly'][:4], nd['is_hole'], a2),
                                  'detail': {'corpus_entry': entry, 'nodes': m['nodes']}})
                     break
             continue
@@ -1245,6 +1249,11 @@ def run_c04(ctx):
         k4 = sweep_key(m, conf, key)
         if k4 == key and m['what'] == 'parent' and vote_inconclusive(m['node'], m['other']):
             k4 = TOUCH_KEY
+        if k4 == key and m['what'] != 'parent':
+            # overlapping siblings one of which is a hole that pokes out of the other by less than the band
+            for h, o in ((m['node'], m['other']), (m['other'], m['node'])):
+                if shoelace2([h]) < 0 and shoelace2([o]) > 0 and pokes_out(h, o):
+                    k4 = POKE_KEY
         v = {'key': k4, 'kind': 'nesting-' + m['what'], 'detail': {'corpus_entry': entry, 'node': m['node'], 'other': m['other'], 'nodes': m['nodes'], 'checker': res, 'confirmed': conf}}
         if conf:
             v['text'] = '%s at point (%s, %s) (windings %s): node %s vs %s' % (txt, conf['point'][0], conf['point'][1], conf['windings'], m['node'][:4], m['other'][:4])
@@ -1254,6 +1263,32 @@ def run_c04(ctx):
         viol.append(v)
     ctx['nontrivial'] += len(seen)
     return viol
+
+
+POKE_KEY = 'rounded-ring-pokes-out-of-its-owner'
+
+
+def pokes_out(hole, outer):
+    """the ring `hole` has two cyclically consecutive vertices (vertices ON outer's ring not counted) strictly outside
+    `outer` - which is what makes engine.go:path1InsidePath2's vote answer "not inside" - but every vertex of it is
+    inside `outer` or within 2 units of outer's boundary: after rounding the ring is no longer exactly contained in the
+    polygon it belongs to, and the tree builder's exact containment test rejects the only owner there is"""
+    if not hole or not outer:
+        return False
+    edges = geom.closed_edges([outer])
+    verdicts = []
+    for v in hole:
+        q = (F(v[0]), F(v[1]))
+        if _on_ring(v, outer):
+            continue
+        if geom.wn([outer], q) != 0:
+            verdicts.append('in')
+            continue
+        if geom.min_dist2(edges, q) > 4:
+            return False
+        verdicts.append('out')
+    n = len(verdicts)
+    return n >= 2 and any(verdicts[i] == 'out' and verdicts[(i + 1) % n] == 'out' for i in range(n))
 
 
 TOUCH_KEY = 'owner-vote-inconclusive-touching-ring'
